@@ -215,6 +215,19 @@ def langval(ex, v, h=None):
     return z3.And(list(langval_parts(ex, v, h).values()))
 
 
+def made_by(ex, v):
+    """which writes of this activation produced the container v (path signature for findings)"""
+    v = L.simp(v)
+    if not (z3.is_app(v) and v.decl().name() in ('ListV', 'DictV', 'TupleV')):
+        return 'value'
+    ref = v.arg(0)
+    kinds = []
+    for e in ex.events:
+        if e[0] == 'write' and L.simp(e[3]).eq(ref) and e[2] not in kinds:
+            kinds.append(e[2])
+    return '+'.join(kinds) if kinds else 'pre-existing'
+
+
 SAFE_ORIGINS = ('from', 'str1', 'strs', 'strs-or-none', 'strs-or-str-tuples', 'perm', 'deepcopy', 'pairs',
                 'dict-values', 'dict-items', 'from-array', 'ucc-results', 'from2')
 
@@ -244,6 +257,7 @@ class Values(Family):
                 a = ex.to_val(a)
                 parts = langval_parts(ex, a)
                 ex.prove('C02:%s:callable-gets-plain-arguments' % fname(ex), ['C02'], parts['C02'])
+                ex.prove('C03:%s:callable-gets-containers-within-cap' % fname(ex), ['C03'], parts['C03'])
                 ex.prove('C17:%s:callable-never-gets-a-tree-owned-list' % fname(ex), ['C17'], parts['C17'])
 
     def after_call(self, ex, info):
@@ -269,10 +283,11 @@ class Values(Family):
         parts = langval_parts(ex, v)
         watch = {'watch': {'result': v}}
         unknown = any(u.eq(v) for u in ex.unknown_vals)
+        made = made_by(ex, v)
         ex.prove('C02:%s:result-is-plain-data' % fname(ex), ['C02'], parts['C02'], watch)
         ex.prove('C17:%s:result-never-aliases-the-tree' % fname(ex), ['C17'], parts['C17'], watch)
         ex.prove('C10:%s:builtin-table-does-not-escape' % fname(ex), ['C10'], parts['C10'], watch)
-        ex.prove('C03:%s:result-within-cap' % fname(ex), ['C03'], parts['C03'], watch)
+        ex.prove('C03:%s:result-within-cap[%s]' % (fname(ex), made), ['C03'], parts['C03'], watch)
 
     def on_event(self, ex, ev):
         kind = ev[0]
@@ -283,16 +298,20 @@ class Values(Family):
             fn = fname(ex)
             fresh = ex.is_fresh(ref)
             info = {'watch': {'old_len': old_len, 'new_len': new_len, 'target': ref}}
-            # C03: TSI-6
-            ex.prove('C03:%s:length-within-cap-after-%s' % (fn, wkind), ['C03'], new_len <= CAP, info)
+            # C03: TSI-6 for containers the program can already see; containers this activation
+            # allocated are checked where they escape (returned, stored, handed to a callable)
+            ex.prove('C03:%s:length-within-cap-after-%s' % (fn, wkind), ['C03'], z3.Or(fresh, new_len <= CAP), info)
             # C02: TSI-7 stored values are plain
             for sv in stored:
+                ex.prove('C03:%s:stored-container-within-cap[%s of %s]' % (fn, wkind, made_by(ex, sv)), ['C03'],
+                         langval_parts(ex, sv)['C03'], {'watch': {'stored': sv}})
                 ex.prove('C02:%s:stores-only-plain-data[%s]' % (fn, wkind), ['C02'], L.tag_plain(sv),
                          {'watch': {'stored': sv}})
                 ex.prove('C17:%s:stores-no-tree-owned-list[%s]' % (fn, wkind), ['C17'],
                          langval_parts(ex, sv)['C17'], {'watch': {'stored': sv}})
             if what == 'list':
-                elts = L.simp(ex.heap.lelts(ref)) if wkind in ('list()', 'tuple()', 'display', 'sorted()', 'findall', 'split', 'slice-copy', 'repeat', 'concat', 'copy') else None
+                base_kind = wkind.split('<')[0]
+                elts = L.simp(ex.heap.lelts(ref)) if base_kind in ('list()', 'tuple()', 'display', 'sorted()', 'findall', 'split', 'slice-copy', 'repeat', 'concat', 'copy') else None
                 arr = elts
                 if arr is not None:
                     org = ex.array_origin.get(arr.get_id())
